@@ -32,19 +32,120 @@ RULE = ('(a) round trips: random dtype (incl. structured, big-endian, bool, comp
         'written in several parts (equal or different chunk layouts, offsets) and/or mirrored to two stores / two array names '
         'by ONE dask.compute call and read back (whole, part by part, indexed) by one compute call; (i) reads that do not match '
         'what is stored (another dtype, merged / split chunk grid, chunks never written) with errors=<number> and errors=raise: '
-        'only MISSING chunks may be replaced by the default value. A case is non-trivial when it stores at least two chunks / has a non-empty '
-        'selection / actually splits a dimension / has an underscore in the bucket / has a non-C layout of a >= 2 x 2 array / puts at least two graphs; distinct by its '
+        'only MISSING chunks may be replaced by the default value; (j) 2-4 arrays with near-colliding names (\'_\' / \'-\' variants, '
+        'prefixes of each other, names with \'/\', characters that need quoting, upper / lower case, names that look like chunk ids / '
+        'markers) written into ONE store (put_chunk / put_dask_array, one array or one chunk rewritten, markers) and read back '
+        '(get_chunk and is_complete of every array, get_dask_array of two of them) on Dict / NPY / S3 with the S3 store URL in both modes (bare endpoint with the '
+        'bucket in the names incl. two buckets, or bucket and key prefix in the store URL, with / without trailing slash), the '
+        'endpoint\'s key set compared with the documented names; a 6 % stream of ill-formed names (empty / dot components: '
+        'finding C07-F7); round trips (a) and sequences (c) on S3 also use both URL modes. A case is non-trivial when it stores at least two chunks / has a non-empty '
+        'selection / actually splits a dimension / has an underscore in the bucket / has a non-C layout of a >= 2 x 2 array / puts at least two graphs / names at least two arrays; distinct by its '
         'canonical input')
 ASSUMPTIONS = ['dask merges the graphs handed to one compute call by task name (modelled: of several requests with the same '
                'name only the first is evaluated); two RecS3 stores would share the one loopback endpoint, so at most one S3 '
                'store takes part in a multi-store case',
                'dask assembles blocks by position and culls blocks outside a slice (modelled: element p comes from the '
                'block containing p; an empty selection still takes block 0 of each axis)',
-               'numpy .npy encoding/decoding and urllib/requests URL handling are exercised, not modelled',
+               'numpy .npy encoding/decoding and requests / urllib3 / urlsplit / geturl are exercised, not modelled; quote, the '
+               'path merge of urljoin and the percent-decoding of the endpoint are modelled for ASCII names (Model/ChunksUrl.v)',
+               'the loopback endpoint keys its objects by the percent-decoded request path and takes the first path component '
+               'as the bucket (path-style addressing), like the S3 service the store is written for',
                'generate_chunks: equality with the exact-arithmetic model is demanded only where the float64 '
                'computation is decision-exact; the chunks_ok relation is demanded always',
                'DictChunkStore is addressed by slices not names: its keys are not compared, and negative offsets are '
                'not applied to it']
+
+# ---------------------------------------------------------------------------------------------------
+# The failing-input search after a broken translator item: model files that read the missing definition do not compile and
+# the pipeline leaves them out of the driver it rebuilds.  This module is imported BEFORE the pipeline regenerates anything,
+# so the driver found at import time is the one of the previous tree: keep a copy of it (only if it is up to date with the
+# model sources on disk, contains every wire of this check and the proofs of this check are up to date with it = a good tree) and let the search use it when wires of this check are missing.
+
+C07_WIRES = (7, 71, 72, 73, 74)
+C07_MODEL_SOURCES = ('Model/Chunks.v', 'Model/ChunksMulti.v', 'Model/ChunksGenPy.v', 'Model/ChunksUrl.v', 'Base/Sx.v')
+
+
+def _sources_hash(core):
+    import hashlib
+    h = hashlib.sha256()
+    for f in C07_MODEL_SOURCES:
+        h.update(open(os.path.join(core.COQ, f), 'rb').read())
+    return h.hexdigest()
+
+
+def _snapshot_driver():
+    try:
+        import json
+        from vh import core
+        ex = core.EXTRACT_DIR
+        drv, lo, stamp = (os.path.join(ex, x) for x in ('driver', 'left_out_wires.json', 'stamp'))
+        if not (os.path.exists(drv) and os.path.exists(stamp)):
+            return
+        left = json.load(open(lo)) if os.path.exists(lo) else {}
+        if any(str(w) in left for w in C07_WIRES):
+            return
+        st = open(stamp).read()
+        if st != core.model_hash() + '|':          # not the driver of the sources on disk
+            return
+        # ... of a GOOD tree: the proofs of this check are compiled against the very Generated.v the driver was built from
+        # (after a run whose translator passed but whose proofs broke, Props/C07.vo is out of date)
+        rc, _ = core.sh('timeout 20 make -q Props/C07.vo', cwd=core.COQ, timeout=30)
+        if rc != 0:
+            return
+        dst = os.path.join(core.VERIF, 'build', 'c07_last_good')
+        tag = st + _sources_hash(core)
+        if os.path.exists(os.path.join(dst, 'tag')) and open(os.path.join(dst, 'tag')).read() == tag:
+            return
+        os.makedirs(dst, exist_ok=True)
+        tmp = os.path.join(dst, 'driver.tmp.%d' % os.getpid())
+        shutil.copy2(drv, tmp)
+        if open(stamp).read() != st:               # rebuilt meanwhile by another check
+            os.remove(tmp)
+            return
+        os.replace(tmp, os.path.join(dst, 'driver'))
+        with open(os.path.join(dst, 'tag'), 'w') as f:
+            f.write(tag)
+    except Exception:
+        pass
+
+
+_snapshot_driver()
+
+
+def _last_good_model(ctx):
+    """If wires of this check are missing from the current driver, answer model calls with the driver kept from the last
+    good tree (same model sources, only Gen/Generated.v differs).  Returns a note for the evidence or None."""
+    import json
+    import subprocess
+    from vh import core
+    lo = os.path.join(core.EXTRACT_DIR, 'left_out_wires.json')
+    left = json.load(open(lo)) if os.path.exists(lo) else {}
+    have_driver = os.path.exists(os.path.join(core.EXTRACT_DIR, 'driver'))
+    if have_driver and not any(str(w) in left for w in C07_WIRES):
+        return None
+    dst = os.path.join(core.VERIF, 'build', 'c07_last_good')
+    drv = os.path.join(dst, 'driver')
+    if not (os.path.exists(drv) and os.path.exists(os.path.join(dst, 'tag'))
+            and open(os.path.join(dst, 'tag')).read().endswith(_sources_hash(core))):
+        return 'no usable driver of the last good tree'
+
+    def model(cases):
+        if not cases:
+            return []
+        text = '\n'.join(core.to_sx(c) for c in cases) + '\n'
+        p = subprocess.run(['bash', '-c', 'ulimit -s unlimited 2>/dev/null; exec %s' % drv], input=text, stdout=subprocess.PIPE,
+                           stderr=subprocess.PIPE, text=True, timeout=3000, env=dict(os.environ, OCAMLRUNPARAM='l=8G'))
+        if p.returncode:
+            raise RuntimeError('model driver (last good tree) failed rc=%s: %s' % (p.returncode, p.stderr[-2000:]))
+        lines = p.stdout.split('\n')
+        if lines and lines[-1] == '':
+            lines.pop()
+        if len(lines) != len(cases):
+            raise RuntimeError('model driver returned %d lines for %d cases' % (len(lines), len(cases)))
+        return [core.parse_sx(l) for l in lines]
+    ctx.model = model
+    return 'model of the last good tree (wires %s are missing from the current driver)' % sorted(left)
+
 
 SYNC = dict(scheduler='synchronous')
 NAMES = {'dict': ['x'], 'npy': ['x', 'sub/x', 'a_b/c/x'], 's3': ['b_k/x_y', 'bk/x', 'b_k_/deep/x_']}
@@ -122,8 +223,9 @@ class Backends:
     def close(self):
         shutil.rmtree(self.tmp, ignore_errors=True)
 
-    def new(self, kind, full_shape, dtype, name=None):
-        """Returns (store, array_name, keys()) with keys() -> sorted object keys as the model names them."""
+    def new(self, kind, full_shape, dtype, name=None, bp=''):
+        """Returns (store, array_name, keys()) with keys() -> sorted object keys as the model names them.
+        bp: path of the S3 store URL ('' = bare endpoint, '/bucket/' = store relative to an existing bucket)."""
         name = name or NAMES[kind][0]
         if kind == 'dict':
             st = c07stores.RecDict(x=np.zeros(full_shape, np.dtype(dtype)))
@@ -144,9 +246,25 @@ class Backends:
             self.dirs = getattr(self, 'dirs', []) + [d]
             return st, name, keys
         self.s3.reset()
-        st = c07stores.RecS3(self.s3.url, timeout=(5, 5), retries=0)
+        st = c07stores.RecS3(self.s3.url + bp, timeout=(5, 5), retries=0)
         st.create_array(name)
         return st, name, (lambda: sorted(self.s3.objects))
+
+
+S3_PATHS = ['', '', '/', '/bkt/', '/b_u/', '/bkt/pre_x/']     # store URL paths: bucket in the array name / in the store URL
+
+
+def s3_paths(ctx, pairs):
+    """{(bp, rel): object path at the endpoint} from the model of make_url (wire_74) for (store path, relative name) pairs."""
+    by = {}
+    for bp, k in sorted(set(pairs)):
+        by.setdefault(bp, []).append(k)
+    bps = sorted(by)
+    out = {}
+    for bp, mo in zip(bps, ctx.model([[74, [1, codes(bp), [codes(k) for k in by[bp]]]] for bp in bps])):
+        for k, o in zip(by[bp], mo[0]):
+            out[(bp, k)] = destr(o[1]) if o != [-999] else None
+    return out
 
 
 def err_code(e):
@@ -237,7 +355,7 @@ def roundtrip_case(ctx, be, kind, case, mo):
     labels = np.arange(int(np.prod(shape, dtype=int))).reshape(shape)
     x = conv(dtype, labels)
     sig = 'op=roundtrip;backend=%s;offset=%s;' % (kind, off_class(offp, offg, nd))
-    store, name, keys = be.new(kind, full, dtype, case.get('name'))
+    store, name, keys = be.new(kind, full, dtype, case.get('name'), case.get('bp', ''))
     arr = da.from_array(x, chunks=tuple(chunks))
     with dask.config.set(**SYNC):
         try:
@@ -259,7 +377,7 @@ def roundtrip_case(ctx, be, kind, case, mo):
             impl_keys = keys()
             mkeys = sorted(destr(k) for k in mo[1])
             if kind == 's3':
-                mkeys = sorted(case['_norm'][k] for k in mkeys)
+                mkeys = sorted(case['_norm'][(case.get('bp', ''), k)] for k in mkeys)
             if impl_keys != mkeys:
                 ctx.disagree(sig + 'symptom=object_keys', case, impl_keys[:6], mkeys[:6],
                              'file names / object keys differ from chunk_name of the blocks')
@@ -321,6 +439,8 @@ def gen_roundtrips(ctx, n):
             errors = 'raise'
         cases.append((kind, dict(name=rng.choice(NAMES[kind]), dtype=dt_repr(rng.choice(DTYPES)), chunks=chunks, offp=offp, offg=offg,
                                  errors=errors)))
+        if kind == 's3':
+            cases[-1][1]['bp'] = rng.choice(S3_PATHS)
     return cases
 
 
@@ -330,12 +450,8 @@ def run_roundtrips(ctx, be, cases):
         c.setdefault('name', NAMES[kind][0])
         mc.append([7, [2, codes(c['name']), c['chunks'], c['offp'], c['offg'], c['errors'] != 'raise']])
     mos = ctx.model(mc)
-    # normalised object paths for the S3 cases (model of make_url's bucket normalisation)
-    allkeys = sorted({destr(k) for (kind, _), mo in zip(cases, mos) if kind == 's3' for k in mo[1]})
-    norm = {}
-    if allkeys:
-        for k, o in zip(allkeys, ctx.model([[7, [5, codes('/' + k)]] for k in allkeys])):
-            norm[k] = destr(o[0])
+    # object paths at the endpoint for the S3 cases (model of make_url: quote, urljoin, bucket normalisation)
+    norm = s3_paths(ctx, [(c.get('bp', ''), destr(k)) for (kind, c), mo in zip(cases, mos) if kind == 's3' for k in mo[1]])
     for (kind, c), mo in zip(cases, mos):
         c['_norm'] = norm
         roundtrip_case(ctx, be, kind, c, mo)
@@ -344,6 +460,8 @@ def run_roundtrips(ctx, be, cases):
         ctx.note_case(('rt', kind, repr(c)), nontrivial=nblocks >= 2,
                       sample=dict(op='roundtrip', backend=kind, **c))
         ctx.count('roundtrip:' + kind)
+        if kind == 's3':
+            ctx.count('s3_store_url=' + ('bucket_in_url' if c.get('bp', '').strip('/') else 'bare_endpoint'))
         ctx.count('ndim=%d' % len(c['chunks']))
         ctx.count('offset=' + off_class(tuple(c['offp']), tuple(c['offg']), len(c['chunks'])))
 
@@ -469,22 +587,18 @@ def run_ops(ctx, be, n):
                 ops.append([2, rng.choice([0, 1])])
             else:
                 ops.append([3, rng.choice([0, 1])])
-        cases.append((kind, ops))
+        cases.append((kind, ops, rng.choice(S3_PATHS) if kind == 's3' else ''))
     arrn = {'npy': 'x', 's3': 'b_k/x_y'}
     mark = {'npy': ['x', 'x/y'], 's3': ['b_k/x_y', 'b_k/z']}
     mc = []
-    for kind, ops in cases:
+    for kind, ops, bp in cases:
         mops = [(o[:1] + [codes(mark[kind][o[1]])]) if o[0] in (2, 3) else o for o in ops]
         mc.append([7, [7, codes(arrn[kind]), mops]])
     mos = ctx.model(mc)
-    allkeys = sorted({destr(k) for (kind, _), mo in zip(cases, mos) if kind == 's3' for k in mo[1]})
-    norm = {}
-    if allkeys:
-        for k, o in zip(allkeys, ctx.model([[7, [5, codes('/' + k)]] for k in allkeys])):
-            norm[k] = destr(o[0])
+    norm = s3_paths(ctx, [(bp, destr(k)) for (kind, _, bp), mo in zip(cases, mos) if kind == 's3' for k in mo[1]])
     dt = np.dtype('<i4')
-    for (kind, ops), mo in zip(cases, mos):
-        store, name, keys = be.new(kind, (), dt, arrn[kind])
+    for (kind, ops, bp), mo in zip(cases, mos):
+        store, name, keys = be.new(kind, (), dt, arrn[kind], bp)
         outs = []
         for o in ops:
             try:
@@ -512,8 +626,8 @@ def run_ops(ctx, be, n):
         be.done()
         mkeys = sorted(destr(k) for k in mo[1])
         if kind == 's3':
-            mkeys = sorted(norm[k] for k in mkeys)
-        case = dict(backend=kind, ops=ops)
+            mkeys = sorted(norm[(bp, k)] for k in mkeys)
+        case = dict(backend=kind, ops=ops, bp=bp)
         for j, (a, b) in enumerate(zip(outs, mo[0])):
             if a is None:
                 continue
@@ -1501,6 +1615,329 @@ def run_mismatch_cases(ctx, be, cases):
 
 
 # ---------------------------------------------------------------------------------------------------
+# (j) naming: several arrays with near-colliding names in ONE store
+
+NM_DTYPES = ['<i4', '>f8', '<c8', '>u2', '<i2', [('a', '<u2'), ('b', '>f4')]]
+NM_FAMILIES = [
+    ['w_c', 'w-c', 'w_c_', 'w-c-', 'wc', 'w', 'w__c', 'w_-c'],
+    ['sdp_l0/vis', 'sdp-l0/vis', 'sdp_l0/vis_2', 'sdp-l0/vis-2', 'sdp_l0', 'sdp-l0', 'sdp_l0/v', 'sdp_l0/vis/x'],
+    ['a/b', 'a/b/c', 'a', 'ab', 'a_b', 'a-b', 'a/bc', 'a/b_c', 'a/b-c'],
+    ['a_b/c_d', 'a-b/c_d', 'a_b/c-d', 'a-b/c-d', 'a_b/c', 'a-b/c', 'a_b', 'a-b'],
+    ['x/00000', 'x/00000_00000', 'x', 'x/0', 'x_0', 'x-0', 'x/00000.npy', 'x.npy'],
+    ['flags', 'flags_', 'flag_s', 'flag-s', 'flags/0', 'flags-', 'flags.x', 'flags~'],
+    ['1_2/3_4', '1-2/3_4', '1_2/3-4', '1_2_3_4', '1-2-3-4', '1_2', '1-2/3-4'],
+    ['Vis', 'vis', 'VIS', 'vis/X', 'vis/x', 'Vis_1', 'vis_1', 'vis-1', 'Vis-1'],
+]
+NM_SPECIAL = ['w c', 'w%20c', 'w+c', 'w%2Fc', 'w#c', 'w?c', 'w:c', 'w;c', 'w@c', 'w&c=d', 'w%c', 'w%5Fc', 'w~c', 'w,c', "w'c"]
+NM_ILLFORMED = [('a//b', 'a/b'), ('a/./b', 'a/b'), ('c/../a/b', 'a/b'), ('./a', 'a'), ('a/b/', 'a/b'), ('a/b/.', 'a/b')]
+NM_S3_BARE = ['', '/', '/ignored']
+NM_S3_BUCKET = ['/bkt/', '/b_u/', '/b-u/pre_x/', '/bkt/p/q_r/', '/bkt//x/']
+NM_BUCKETS = ['b_k', 'bk', 'katdal_demo', 'b-k-0']
+
+
+def nm_illformed(name):
+    comps = name.split('/')
+    return any(c in ('', '.', '..') for c in comps)
+
+
+def gen_naming_cases(ctx, n):
+    rng = ctx.rng
+    cases = []
+    kinds = ['s3', 's3', 'npy', 's3', 'dict', 's3', 'npy', 's3']
+    for i in range(n):
+        kind = kinds[i % len(kinds)]
+        fam = list(rng.choice(NM_FAMILIES))
+        if kind == 'npy':        # on a file system "x/00000.npy" is the first chunk FILE of array "x", not a directory
+            fam = [x for x in fam if not x.endswith('.npy')]
+        r = rng.random()
+        if r < 0.25:
+            fam += rng.sample(NM_SPECIAL, 4)
+        if kind == 's3' and rng.random() < 0.3:
+            fam += ['x/complete', 'x', 'complete']
+        names = rng.sample(fam, rng.randint(2, min(4, len(fam))))
+        if rng.random() < 0.5:       # make sure a pair differing only in '_' / '-' is there when the family has one
+            cand = [(a, b) for a in fam for b in fam if a != b and a.replace('_', '-') == b.replace('_', '-')]
+            if cand:
+                a, b = rng.choice(cand)
+                names = [a, b] + [x for x in names if x not in (a, b)][:2]
+        ill = False
+        if kind == 's3' and rng.random() < 0.06:
+            a, b = rng.choice(NM_ILLFORMED)
+            names = [a, b] + [x for x in names if x not in (a, b)][:1]
+            ill = True
+        rng.shuffle(names)
+        bp, mode = '', '-'
+        if kind == 's3':
+            if i % 16 in (1, 5, 11) and not ill or (ill and rng.random() < 0.5):
+                bp, mode = rng.choice(NM_S3_BARE), 'name_bucket'
+                if rng.random() < 0.25:
+                    b1, b2 = rng.choice([('b_k', 'bk'), ('bk', 'b-k-0'), ('katdal_demo', 'bk')])
+                    names = [(b1 if k % 2 == 0 else b2) + '/' + x for k, x in enumerate(names)]
+                else:
+                    b = rng.choice(NM_BUCKETS)
+                    names = [b + '/' + x for x in names]
+            else:
+                bp, mode = rng.choice(NM_S3_BUCKET), 'url_bucket'
+        while True:
+            chunks = rand_chunks(rng, maxlen=4, allow0=False)
+            if int(np.prod([len(c) for c in chunks], dtype=int)) <= 6 and (chunks or rng.random() < 0.3):
+                break
+        na = len(names)
+        writes = [[k, rng.choice(['chunk', 'dask'])] for k in range(na)]
+        if rng.random() < 0.3:
+            writes.append([rng.randrange(na), 'chunk'])          # an array written twice: the last put wins
+        nb = int(np.prod([len(c) for c in chunks], dtype=int))
+        rewrite = [rng.randrange(na), rng.randrange(nb)] if rng.random() < 0.4 else None
+        marks = [] if kind == 'dict' else [rng.randrange(na) for _ in range(rng.choice([0, 1, 1, 2]))]
+        cases.append(dict(backend=kind, bp=bp, mode=mode, names=names, dtype=dt_repr(rng.choice(NM_DTYPES)), chunks=chunks,
+                          writes=writes, rewrite=rewrite, marks=marks, sched=rng.choice(['synchronous', 'threads'])))
+    return cases
+
+
+def naming_ops(c):
+    """The history of a naming case: (kind, array index, block index, v) in the order the implementation is driven."""
+    chunks = tuple(tuple(x) for x in c['chunks'])
+    nb = len(block_slices(chunks))
+    ops, v = [], 0
+    for k, how in c['writes']:
+        for b in range(nb):
+            ops.append(('put', k, b, v))
+            v += 1
+    if c['rewrite'] is not None:
+        ops.append(('put', c['rewrite'][0], c['rewrite'][1], v))
+        v += 1
+    for k in c['marks']:
+        ops.append(('mark', k, None, None))
+    for k in range(len(c['names'])):
+        for b in range(nb):
+            ops.append(('get', k, b, None))
+    if c['backend'] != 'dict':
+        for k in range(len(c['names'])):
+            ops.append(('complete', k, None, None))
+    return ops
+
+
+def naming_wire(c, mode):
+    chunks = tuple(tuple(x) for x in c['chunks'])
+    blocks = block_slices(chunks)
+    out = []
+    for what, k, b, v in naming_ops(c):
+        nm = codes(c['names'][k])
+        if what == 'put':
+            out.append([0, nm, [s for s, _ in blocks[b]], v])
+        elif what == 'get':
+            out.append([1, nm, [s for s, _ in blocks[b]]])
+        elif what == 'mark':
+            out.append([2, nm])
+        else:
+            out.append([3, nm])
+    return [74, [2, mode, codes(c['bp']), out]]
+
+
+def nm_block(dtype, bshape, v):
+    n = int(np.prod(bshape, dtype=int))
+    return conv(dtype, (np.arange(n) + 64 * v).reshape(bshape))
+
+
+def run_naming_cases(ctx, be, cases):
+    for c in cases:
+        if any(not all(ord(ch) < 128 for ch in nm) for nm in c['names']):
+            raise ValueError('naming case with non-ASCII names')
+    mos = ctx.model([naming_wire(c, 1 if c['backend'] == 's3' else 0) for c in cases])
+    verb = ctx.model([naming_wire(c, 0) for c in cases])         # the relative names (keys verbatim)
+    spec = s3_spec_paths(ctx, [(c['bp'], destr(k)) for c, mv in zip(cases, verb) if c['backend'] == 's3' for k in mv[2]])
+    for c, mo, mv in zip(cases, mos, verb):
+        naming_case(ctx, be, c, mo, mv, spec)
+        names = c['names']
+        near = any(a != b and a.replace('_', '-') == b.replace('_', '-') for a in names for b in names)
+        ctx.note_case(('naming', repr(c)), nontrivial=len(names) >= 2,
+                      sample=dict(op='naming', **c))
+        ctx.count('naming:' + c['backend'] + ('' if c['backend'] != 's3' else ':' + c['mode']))
+        if near:
+            ctx.count('naming:underscore_dash_pair')
+        if any(a != b and (b.startswith(a + '/') or b.startswith(a)) for a in names for b in names):
+            ctx.count('naming:prefix_pair')
+        if any(nm_illformed(x) for x in names):
+            ctx.count('naming:illformed')
+
+
+def s3_spec_paths(ctx, pairs):
+    """{(bp, rel): documented object path} (spec_object_path of wire_74)."""
+    by = {}
+    for bp, k in sorted(set(pairs)):
+        by.setdefault(bp, []).append(k)
+    bps = sorted(by)
+    out = {}
+    for bp, mo in zip(bps, ctx.model([[74, [1, codes(bp), [codes(k) for k in by[bp]]]] for bp in bps])):
+        for k, o in zip(by[bp], mo[0]):
+            out[(bp, k)] = (destr(o[2]), bool(o[3]) and bool(mo[1])) if o != [-999] else (None, False)
+    return out
+
+
+def naming_case(ctx, be, c, mo, mv, spec):
+    """mo = [answers, spec_answers, final_keys, in_model, arrays_wf] of the back-end's key function, mv = the same with
+    the keys verbatim."""
+    kind, names = c['backend'], c['names']
+    dtype = np.dtype(dt_of(c['dtype']))
+    chunks = tuple(tuple(x) for x in c['chunks'])
+    shape = tuple(sum(x) for x in chunks)
+    blocks = block_slices(chunks)
+    bshapes = [tuple(e - s for s, e in b) for b in blocks]
+    ill = any(nm_illformed(x) for x in names)
+    sig = 'op=naming;backend=%s;mode=%s;names=%s;' % (kind, c['mode'], 'illformed' if ill else 'wf')
+    ops = naming_ops(c)
+    if mo == [-999] or not mo[3]:
+        raise ValueError('naming case outside the model: %r' % (c,))
+    m_ans, s_ans, m_keys = mo[0], mo[1], sorted(set(destr(k) for k in mo[2]))
+    # ---- drive the implementation
+    if kind == 'dict':
+        store = c07stores.RecDict(**{nm: np.zeros(shape, dtype) for nm in names})
+        keys = None
+    elif kind == 'npy':
+        store, _, keys = be.new('npy', shape, dtype, names[0])
+    else:
+        store, _, keys = be.new('s3', shape, dtype, names[0], c['bp'])
+    impl = []
+    nputs = sum(1 for o in ops if o[0] == 'put')
+    pos = 0
+    cache = {}
+
+    def nm_data(dt, bshape, v):
+        if (bshape, v) not in cache:
+            cache[(bshape, v)] = nm_block(dt, bshape, v)
+        return cache[(bshape, v)]
+    written = {}       # block index -> the puts addressed to a block of that shape (candidates when identifying data read back)
+    for o in ops:
+        if o[0] == 'put':
+            written.setdefault(bshapes[o[2]], []).append(o[3])
+    try:
+        for k, how in c['writes']:
+            if kind != 'dict':
+                store.create_array(names[k])
+            vs = [o[3] for o in ops[pos:pos + len(blocks)]]
+            pos += len(blocks)
+            if how == 'chunk':
+                for b, v in zip(blocks, vs):
+                    store.put_chunk(names[k], tuple(slice(s, e) for s, e in b), nm_data(dtype, tuple(e - s for s, e in b), v))
+            else:
+                full = np.zeros(shape, dtype)
+                for b, v in zip(blocks, vs):
+                    full[tuple(slice(s, e) for s, e in b)] = nm_data(dtype, tuple(e - s for s, e in b), v)
+                with dask.config.set(scheduler=c['sched']):
+                    res = store.put_dask_array(names[k], da.from_array(full, chunks=chunks)).compute()
+                bad = [r for r in np.asarray(res, dtype=object).ravel().tolist() if r is not None]
+                if bad:
+                    raise bad[0]
+            impl += [0] * len(blocks)
+        if c['rewrite'] is not None:
+            k, b = c['rewrite']
+            store.put_chunk(names[k], tuple(slice(s, e) for s, e in blocks[b]), nm_data(dtype, bshapes[b], ops[pos][3]))
+            impl.append(0)
+            pos += 1
+        for k in c['marks']:
+            store.mark_complete(names[k])
+            impl.append(0)
+            pos += 1
+    except Exception as e:
+        ctx.disagree(sig + 'symptom=put_failed:%s' % type(e).__name__, c, repr(e)[:200], 'stored',
+                     'writing several arrays / markers into one store failed')
+        be.done()
+        ctx.traces_validated += 1
+        return
+    raised = None
+    for what, k, b, _ in ops[pos:]:
+        if what == 'get':
+            try:
+                ch = store.get_chunk(names[k], tuple(slice(s, e) for s, e in blocks[b]), dtype)
+                found = [v for v in written.get(tuple(ch.shape), []) if same(ch, nm_data(dtype, tuple(ch.shape), v))]
+                impl.append(found[0] if found else -3)
+            except ChunkNotFound:
+                impl.append(-1)
+            except ChunkStoreError as e:
+                impl.append(-2)
+                raised = raised or type(e).__name__
+            except Exception as e:
+                impl.append(-4)
+                raised = raised or type(e).__name__
+        else:
+            try:
+                impl.append(int(bool(store.is_complete(names[k]))))
+            except Exception as e:
+                impl.append(-4)
+                raised = raised or type(e).__name__
+    # whole arrays as lazy arrays
+    lazy = {}
+    for k in range(min(2, len(names))):      # (the names are in random order)
+        try:
+            with dask.config.set(scheduler=c['sched']):
+                lazy[k] = np.asarray(store.get_dask_array(names[k], chunks, dtype, errors='raise').compute())
+        except Exception as e:
+            lazy[k] = e
+    impl_keys = keys() if keys is not None else None
+    be.done()
+    ctx.traces_validated += 1
+    # ---- compare: property (the history spec) first, then the tie (the model with the back-end's key function)
+    kinds = [o[0] for o in ops]
+
+    def symptom(i, want):
+        if kinds[i] == 'complete':
+            return 'complete_marker'
+        a = impl[i]
+        if a == -1:
+            return 'chunk_missing'
+        if a in (-2, -4):
+            return 'get_raised:%s' % raised
+        if a == -3:
+            return 'unknown_data'
+        return 'wrong_data' if want >= 0 else 'data_for_unwritten_chunk'
+    shown = dict(impl=impl, names=names)
+    if impl != s_ans:
+        i = [j for j in range(len(ops)) if impl[j] != s_ans[j]][0]
+        what = ('%s of array %r block %s differs from the last put addressed to that (array name, chunk start): got put #%s, '
+                'expected put #%s' % (kinds[i], names[ops[i][1]], ops[i][2], impl[i], s_ans[i]))
+        if ill and impl == m_ans:
+            ctx.disagree('op=naming;backend=%s;names=illformed;symptom=aliased' % kind, c, impl, m_ans, what, spec=s_ans)
+        else:
+            ctx.disagree(sig + 'symptom=' + symptom(i, s_ans[i]), c, impl, m_ans, what, spec=s_ans)
+    elif impl != m_ans:
+        ctx.disagree(sig + 'symptom=model_differs', c, impl, m_ans, 'the model of the keyed store answers differently', spec=s_ans,
+                     kind='tie')
+    else:
+        for k in sorted(lazy):
+            want = [s_ans[j] for j in range(len(ops)) if kinds[j] == 'get' and ops[j][1] == k]
+            if any(v < 0 for v in want):
+                continue
+            exp = np.zeros(shape, dtype)
+            for b, v in zip(blocks, want):
+                exp[tuple(slice(s, e) for s, e in b)] = nm_data(dtype, tuple(e - s for s, e in b), v)
+            out = lazy[k]
+            if isinstance(out, Exception):
+                ctx.disagree(sig + 'symptom=lazy_get_raised:%s' % type(out).__name__, c, repr(out)[:200], 'data',
+                             'get_dask_array of array %r raised' % names[k])
+                break
+            if not same(out, exp):
+                ctx.disagree(sig + 'symptom=lazy_wrong_data', c, out.ravel()[:8].tolist(), exp.ravel()[:8].tolist(),
+                             'get_dask_array of array %r differs from the chunks written to it' % names[k])
+                break
+    if impl_keys is not None:
+        if kind == 's3' and not ill:
+            docs = [spec[(c['bp'], destr(k))] for k in mv[2]]
+            if all(ok for _, ok in docs):
+                want = sorted(set(p for p, _ in docs))
+                if impl_keys != want:
+                    ctx.disagree(sig + 'symptom=object_keys', c, impl_keys[:8], m_keys[:8],
+                                 'objects held by the endpoint differ from the documented "<bucket>/<path>/<idx>.npy" of the '
+                                 'chunks written (missing %s, unexpected %s)' % (sorted(set(want) - set(impl_keys))[:3],
+                                                                                sorted(set(impl_keys) - set(want))[:3]),
+                                 spec=want[:8])
+                    return
+        if impl_keys != m_keys:
+            ctx.disagree(sig + 'symptom=object_keys_vs_model', c, impl_keys[:8], m_keys[:8],
+                         'object keys / file names differ from the model (missing %s, unexpected %s)'
+                         % (sorted(set(m_keys) - set(impl_keys))[:3], sorted(set(impl_keys) - set(m_keys))[:3]), kind='tie')
+
+
+# ---------------------------------------------------------------------------------------------------
 
 def run_witness(ctx, be, w):
     kind = w.get('kind')
@@ -1519,11 +1956,16 @@ def run_witness(ctx, be, w):
         run_foreign_cases(ctx, be, [(w['backend'], w['case'])])
     elif kind == 'mismatch':
         run_mismatch_cases(ctx, be, [(w['backend'], w['case'])])
+    elif kind == 'naming':
+        run_naming_cases(ctx, be, [w['case']])
 
 
 def run(ctx):
-    if not ctx.model_ok:
-        # broken translator / model build: search with the last model binary that was built (model of the last good tree)
+    # broken translator / model build: search with the model binary kept from the last good tree
+    note = _last_good_model(ctx)
+    if note:
+        ctx.extra['search_model'] = note
+    if not ctx.model_ok and note is None:
         from vh import core
         if not os.path.exists(os.path.join(core.EXTRACT_DIR, 'driver')):
             raise RuntimeError('no model binary: cannot run the correspondence')
@@ -1532,16 +1974,24 @@ def run(ctx):
         try:
             for f in ctx.findings:
                 run_witness(ctx, be, f['witness'])
-            run_names(ctx, ctx.scale(300, 3000))
-            run_buckets(ctx, ctx.scale(300, 3000))
-            run_gen_chunks(ctx, ctx.scale(3000, 40000), be)
-            run_roundtrips(ctx, be, gen_roundtrips(ctx, ctx.scale(480, 6000)))
-            run_index_cases(ctx, be, gen_index_cases(ctx, ctx.scale(300, 4500)))
-            run_ops(ctx, be, ctx.scale(120, 1500))
-            run_layout_cases(ctx, be, gen_layout_cases(ctx, ctx.scale(400, 4800)))
-            run_foreign_cases(ctx, be, gen_foreign_cases(ctx, ctx.scale(120, 1500)))
-            run_multi_cases(ctx, be, gen_multi_cases(ctx, ctx.scale(300, 3600)))
-            run_mismatch_cases(ctx, be, gen_mismatch_cases(ctx, ctx.scale(120, 1500)))
+            import time
+            stages = ctx.extra.setdefault('stage_seconds', {})
+
+            def stage(name, fn, *a):
+                t0 = time.time()
+                fn(*a)
+                stages[name] = round(stages.get(name, 0) + time.time() - t0, 1)
+            stage('names', run_names, ctx, ctx.scale(300, 3000))
+            stage('buckets', run_buckets, ctx, ctx.scale(300, 3000))
+            stage('generate_chunks', run_gen_chunks, ctx, ctx.scale(3000, 40000), be)
+            stage('roundtrips', run_roundtrips, ctx, be, gen_roundtrips(ctx, ctx.scale(480, 6000)))
+            stage('index', run_index_cases, ctx, be, gen_index_cases(ctx, ctx.scale(300, 4500)))
+            stage('sequences', run_ops, ctx, be, ctx.scale(120, 1500))
+            stage('layouts', run_layout_cases, ctx, be, gen_layout_cases(ctx, ctx.scale(400, 4800)))
+            stage('foreign', run_foreign_cases, ctx, be, gen_foreign_cases(ctx, ctx.scale(120, 1500)))
+            stage('multi', run_multi_cases, ctx, be, gen_multi_cases(ctx, ctx.scale(300, 3600)))
+            stage('mismatch', run_mismatch_cases, ctx, be, gen_mismatch_cases(ctx, ctx.scale(120, 1500)))
+            stage('naming', run_naming_cases, ctx, be, gen_naming_cases(ctx, ctx.scale(190, 2600)))
             if ctx.tier == 'thorough':
                 run_gc_exhaustive(ctx)
                 sample = [[7, [6, 5, z]] for z in (0, 7, 99999, 100000, -1, -12345, 10 ** 17)]
@@ -1551,6 +2001,10 @@ def run(ctx):
                            [73, [[4, 6, 50], 6000, 4, [[-1, 2]], 0, [[[-1, 4], [2, 8]]], [[4], [6], [50]]]],
                            [73, [[10, 7], 13, 2, [[0, 17]], 1, [[[0, 5]]], []]], [73, [[10, 7], 13, 2, [], 1, [], []]],
                            [7, [5, codes('/a_b/c_d/00000_00001.npy')]],
+                           [74, [1, codes('/b_u/pre_x/'), [codes('w_c/00000_00001.npy'), codes('a//b/./x y'), codes('/abs/../p%q')]]],
+                           [74, [1, codes(''), [codes('b_k/w_c/00000.npy'), codes('b_k')]]],
+                           [74, [2, 1, codes('/bkt/'), [[0, codes('w_c'), [0], 1], [0, codes('w-c'), [0], 2], [1, codes('w_c'), [0]],
+                                                         [2, codes('w_c')], [3, codes('w-c')], [3, codes('w_c')], [1, codes('a//b'), [5, -1]]]]],
                            [71, [1, [2, 3], 1]], [71, [2, [2, 3, 2], 1]], [71, [2, [], 1]],
                            [72, [2, [[0, codes('x'), 7, 1, [[2, 2]], [0], 0], [0, codes('x'), 7, 2, [[2, 2]], [4], 4000],
                                      [1, codes('x'), 7, 1, [[2, 2]], [0], 0]],
@@ -1573,6 +2027,9 @@ def run(ctx):
 def replay(ctx, doc):
     case = doc.get('case', {})
     sig = doc.get('signature', '')
+    note = _last_good_model(ctx)
+    if note:
+        ctx.extra['search_model'] = note
     with c07stores.FakeS3() as s3:
         be = Backends(s3)
         try:
@@ -1593,6 +2050,8 @@ def replay(ctx, doc):
                 run_foreign_cases(ctx, be, [(backend, case)])
             elif op == 'mismatch':
                 run_mismatch_cases(ctx, be, [(backend, case)])
+            elif op == 'naming':
+                run_naming_cases(ctx, be, [case])
             elif op == 'normalise_bucket':
                 mo = ctx.model([[7, [5, codes(case['path'])]]])[0]
                 u = _normalise_bucket_name('http://127.0.0.1:9000' + case['path'])
